@@ -7,7 +7,7 @@ CONSTANTS SlotDur = 3
  MaxFail = 1
  Interleave = FALSE
  MaxJump = 2
- BVariants = {1, 2}
+ BVariants = {2}
  AttOffs = {0}
  ProMenu = {1}
  SyncMenu = {2}
